@@ -12,6 +12,7 @@ func init() {
 		run: func(c *Ctx, r *Report) {
 			ruleMultiStream(c, r, "")
 			ruleSameSource(c, r, "")
+			ruleLoopAdvanceExact(c, r, "") // every stream / block of the chain is decoded behind what the previous ones delivered
 			// every member of a chain is a stream of its own: the container checks must have the exact
 			// relations (an empty member with zero records is valid) and LZMA2 chunk effects
 			ruleXZReaderChecks(c, r, "")
